@@ -142,6 +142,21 @@ def c04(rnd, budget):
             pass
         except Exception as e:
             return dict(violation=True, cases=cases, what="iterator failure surfaced as %r" % (e,), witness=ret)
+    # ... also when the failing pull is made by a completion callback with nothing else outstanding (pre_dispatch=1)
+    def late_bad_input(k):
+        for i in range(k):
+            yield delayed(task)(i * 10, 0.01)
+        raise IndexError("input broke late")
+    for k in (1, 2, 4):
+        for pre in (1, 2):
+            cases += 1
+            try:
+                out = list(Parallel(n_jobs=2, backend="threading", pre_dispatch=pre, batch_size=1)(late_bad_input(k)))
+                return dict(violation=True, cases=cases, what="iterator failure lost: the call returned %r" % (out,), witness=dict(items_before_failure=k, pre_dispatch=pre))
+            except IndexError:
+                pass
+            except Exception as e:
+                return dict(violation=True, cases=cases, what="iterator failure surfaced as %r" % (e,), witness=dict(items_before_failure=k, pre_dispatch=pre))
     # timeout
     cases += 1
     import multiprocessing
